@@ -36,7 +36,7 @@ Proof. exact bind_array_values. Qed.
 Print Assumptions C03_array_values.
 
 Example C03_array_nonvacuous :
-  let p := {| ap_required := true; ap_multi := false; ap_sep := 124; ap_elem := PInt (-2147483648) 2147483647 (Some 1%Z) false None false;
+  let p := {| ap_required := true; ap_allow_empty := false; ap_multi := false; ap_sep := 124; ap_elem := PInt (-2147483648) 2147483647 (Some 1%Z) false None false;
               ap_minitems := Some 1%Z; ap_maxitems := Some 3%Z; ap_unique := true |} in
   bind_array p [s "9|9"; s "3| 4 |5"] true = ABound [VInt 3; VInt 4; VInt 5] /\ bind_array p [s "3|3"] true = AReject /\
   bind_array p [s "1|2|3|4"] true = AReject /\ bind_array p [s "0"] true = AReject /\ bind_array p [s ""] true = AReject /\ bind_array p [] false = AReject.
